@@ -89,6 +89,9 @@ struct mc_family {
 	void (*thread) (int i);               /* body of scenario thread i */
 	void (*observer) (void);              /* optional observer fiber */
 	void (*final) (void);                 /* optional: in scheduler context after a completed execution */
+	void (*idle) (void);                  /* optional: in scheduler context whenever no thread can run and the only thing
+	                                         left to happen is the clock advancing to the next pending instant: every waker
+	                                         has finished, so whoever still sleeps is waiting for time alone (pure check) */
 };
 extern const struct mc_family *const mc_families[];
 
